@@ -21,8 +21,8 @@ Record nlayer := {
   l_cache : bool                                          (* a cache layer: every field it touches is optional *)
 }.
 
-Definition alookup {V} (t : list (string * V)) (k : string) : option V :=
-  (fix go t := match t with [] => None | (k', v) :: r => if String.eqb k k' then Some v else go r end) t.
+Fixpoint alookup {V} (t : list (string * V)) (k : string) : option V :=
+  match t with [] => None | (k', v) :: r => if String.eqb k k' then Some v else alookup r k end.
 Definition akeys {V} (t : list (string * V)) : list string := map fst t.
 
 Record nbag := {
